@@ -109,6 +109,12 @@ CLAIMED = {
         text="(a) NanoValue trees (ints incl. boundaries, floats by bit pattern incl. NaN payloads/inf/-0.0, bool, strings up to 70 000 arbitrary non-NUL bytes, opaque, void, nested and empty arrays) must survive serialize/deserialize bit for bit with consumed == written; exact-fit buffers work, one-byte-short and empty buffers and truncated inputs are refused without out-of-bounds access. (b) programs with 2-10 external calls (ctype-style builtins, math builtins, string_from_char, user-declared libc functions in unsafe blocks, strlen on strings from 0 to 70 000 bytes and on UTF-8) print the same bytes and exit with the same status in-process and through nano_cop.",
         note="Co-process clean-up and fault containment are C16. A run whose in-process version already dies (libc ctype functions on out-of-range ints) is skipped, not judged.",
         design="3/C15"),
+    "C16": dict(
+        category="fault_enumeration",
+        technique="complete enumeration of a (protocol step x fault kind) grid injected by a relaying stand-in co-process, plus Hypothesis-generated sequences of faults across relaunches; oracle on the VM's ending, output prefix, error report and leftover processes",
+        text="A stand-in nano_cop first on PATH relays every message between nano_vm --isolate-ffi and the real nano_cop and injects one fault: 11 protocol steps (before/after READY; on request, before reply, mid-reply for calls 1-3) x 23 kinds (exit 0/1, SIGKILL, closing either or both pipes, 1-7 byte headers, wrong version/type, length beyond COP_MAX_PAYLOAD, short and overlong payloads, undecodable values, empty and 1 MiB error texts) - 253 plans, all executed, all fire. The VM must end with status 0 or 1 (never a signal), report an error when it fails, keep every line printed before the faulted call, print nothing wrong, and leave neither the stand-in nor the real co-process alive.",
+        note="The stand-in is a Python relay: timing differs from a real crash. Only the workload's five calls are exercised (requests 1-3 faulted).",
+        design="3/C16"),
 }
 
 NOT_YET = {
